@@ -145,7 +145,8 @@ pub fn check_case(rep: &mut Report, ps: &[Ivs], seed: u64) {
             rep.violation("merge-idempotent", "merge-idempotent", format!("merge(p,p) != p for {}", show(&ps[0])), "merge", &case, seed);
         }
         rep.count("algebraic_law_probes", 4);
-    } else {
+    }
+    {
         // order independence of merge_partition_list: all rotations and a reversal
         let base = merge_partition_list(cps.iter());
         let n = cps.len();
@@ -160,6 +161,21 @@ pub fn check_case(rep: &mut Report, ps: &[Ivs], seed: u64) {
                     return;
                 }
             }
+        }
+        // the same list through iterators whose size_hint is not exact
+        let f1 = merge_partition_list(cps.iter().filter(|_| true));
+        let grouped: Vec<Vec<&CharPartition>> = cps.chunks(2).map(|c| c.iter().collect()).collect();
+        let f2 = merge_partition_list(grouped.iter().flat_map(|g| g.iter().copied()));
+        let e0 = CharPartition::new();
+        let mut padded: Vec<&CharPartition> = vec![&e0];
+        padded.extend(cps.iter());
+        padded.push(&e0);
+        let f3 = merge_partition_list(padded.into_iter().filter(|q| !q.is_empty()));
+        rep.count("inexact_size_hint_probes", 3);
+        let nonempty_base = merge_partition_list(cps.iter().filter(|q| !q.is_empty()));
+        if !same(&f1, &base) || !same(&f2, &base) || !same(&f3, &nonempty_base) || !same(&nonempty_base, &base) {
+            rep.violation("merge-order", "merge-iterator-kind", format!("merge_partition_list gives a different result through filter/flat_map iterators for {}", case), "merge", &case, seed);
+            return;
         }
         // empty list and neutral element inside the list
         if !same(&merge_partition_list(std::iter::empty()), &CharPartition::new()) {
